@@ -40,7 +40,8 @@ def floors(tier):
     return {"nontrivial": 100, "held:main": 150, "counter:same_seed_pairs": 300, "counter:different_seed_pairs": 120,
             "counter:mean_checks": 50, "counter:global_stream_consumed": 200, "class:stochastic": 80, "class:params": 50,
             "class:frozen": 25, "class:sampler-dict-args": 15, "class:sampler-tuple-args": 15, "class:simulate_param": 15, "class:solve_determ": 15, "class:solve_stochast": 15,
-            "class:parameter-as-magnitude": 15, "class:assign-each": 10, "class:assign-once": 10, "class:assign-once+update": 20}
+            "class:parameter-as-magnitude": 15, "class:assign-each": 10, "class:assign-once": 10, "class:assign-once+update": 20,
+            "counter:earlier_solve_on_other_grid": 30}
 
 
 def fingerprint():
@@ -251,6 +252,21 @@ def run_case(rng, idx, tier, lane, ctx):
                     sample["update"] = "same definitions again"
             # unrelated use of the global generator between the assignment and the seeded runs
             np.random.uniform(size=rng.randint(1, 5))
+
+        # what the object was used for before: in half of the cases a deterministic solve on ANOTHER grid (one point shorter at either
+        # end, every other point, the end point alone, one point longer) - the first seeded run must not depend on that
+        if rng.random() < 0.5:
+            grids = {"first point dropped": t[1:], "last point dropped": t[:-1], "every other point": t[::2], "end point only": t[-1:],
+                     "one more point": np.append(t, t[-1] + (t[-1] - t[0] if len(t) > 1 else 1.0) / max(1, len(t) - 1))}
+            gname = rng.choice(sorted(grids))
+            if len(grids[gname]):
+                try:
+                    with contextlib.redirect_stdout(io.StringIO()), np.errstate(all="ignore"):
+                        m.integrate(np.asarray(grids[gname], dtype=float))
+                    counters["earlier_solve_on_other_grid"] = 1
+                    sample["earlier_solve"] = gname
+                except Exception:
+                    counters["earlier_solve_raised"] = 1
 
         def history(seed):
             np.random.seed(seed)
